@@ -249,6 +249,7 @@ func (n *Nodis) LPopRPush(source, destination string) []byte {
 			tx.delKey(source)
 		}
 		n.signalModifiedKey(source, meta)
+		verifPoint("b:move")
 		dst := tx.writeKey(destination, n.newList)
 		dst.value.(*list.LinkedList).RPush(v...)
 		n.notifyBlockingKey(destination)
@@ -276,6 +277,7 @@ func (n *Nodis) RPopLPush(source, destination string) []byte {
 			tx.delKey(source)
 		}
 		n.signalModifiedKey(source, meta)
+		verifPoint("b:move")
 		dst := tx.writeKey(destination, n.newList)
 		dst.value.(*list.LinkedList).LPush(v...)
 		n.notifyBlockingKey(destination)
